@@ -278,26 +278,27 @@ def findObject (secs : List Section) (num gen : Nat) : Option FileObject :=
 
 /-- the `getInt` closure of `makeSafeGetInt`: follows references through `findObject` reading
     each target in scalar-only mode; `seen` is shared by all calls for one object.
-    Returns the new `seen` and the integer, `none` for any error. -/
-def safeGetInt (file : Bytes) (secs : List Section) : Nat → List (Nat × Nat) → Obj → List (Nat × Nat) × Option Int
-  | 0, seen, _ => (seen, none)
+    Returns the new `seen` and the integer or the error (the errors made here are malformed-file
+    errors; an error of the nested `doRead` is handed on as it is). -/
+def safeGetInt (file : Bytes) (secs : List Section) : Nat → List (Nat × Nat) → Obj → List (Nat × Nat) × Except Err Int
+  | 0, seen, _ => (seen, .error .malformed)
   | fuel+1, seen, o =>
     match o with
     | .ref n g =>
-      if seen.contains (n, g) || seen.length > 8 then (seen, none) else
+      if seen.contains (n, g) || seen.length > 8 then (seen, .error .malformed) else
       let seen := (n, g) :: seen
       match findObject secs n g with
-      | none => (seen, none)            -- doRead(nil) gives nil: "expected integer, got null"
+      | none => (seen, .error .malformed)   -- doRead(nil) gives nil: "expected integer, got null"
       | some fo =>
         -- nested /Length look-ups cannot happen in scalar-only mode (composites are refused)
-        match readIndirect file fo.start (fun _ => none) true with
-        | .error _ => (seen, none)
+        match readIndirect file fo.start (fun _ => .error .malformed) true with
+        | .error e => (seen, .error e)
         | .ok ind =>
           match ind.val with
           | .obj o' => safeGetInt file secs fuel seen o'
-          | .stream .. => (seen, none)
-    | .int i => (seen, some i)
-    | _ => (seen, none)
+          | .stream .. => (seen, .error .malformed)
+    | .int i => (seen, .ok i)
+    | _ => (seen, .error .malformed)
 
 structure CheckedObject where
   num : Nat
@@ -323,7 +324,7 @@ def typeOf : Val → String × Bytes
 
 /-- `checkObjects` for one object (`doRead` with a fresh `makeSafeGetInt`) -/
 def checkObject (file : Bytes) (secs : List Section) (fo : FileObject) : Except Err CheckedObject :=
-  let getInt (o : Obj) : Option Int := (safeGetInt file secs 12 [] o).2
+  let getInt (o : Obj) : Except Err Int := (safeGetInt file secs 12 [] o).2
   match readIndirect file fo.start getInt false with
   | .error .malformed => .ok { num := fo.num, gen := fo.gen, start := fo.start, endPos := 0, broken := true, type := "", subtype := [] }
   | .error .eof => .ok { num := fo.num, gen := fo.gen, start := fo.start, endPos := 0, broken := true, type := "", subtype := [] }
